@@ -12,6 +12,7 @@ EXTENDS TRCOps, TLC, Json
 CONSTANTS Depth,             \* number of mutations applied to the base payloads in DeepIds (0..Depth)
           DeepIds,
           BaseIds,           \* which base payloads are used (those not in DeepIds get <= 1 mutation)
+          BigQuorums,        \* quorum values tried on the 513-certificate payload (base 5)
           QuorumLowerBound,  \* see TRCOps!CodeValidate
           EmitScenarios      \* TRUE in generator configs
 
@@ -113,7 +114,7 @@ vars == <<p, depth, maxd>>
 
 Init == \E b \in BaseIds : p = Bases[b] /\ depth = 0 /\ maxd = IF b \in DeepIds THEN Depth ELSE 1
 Mutate == /\ depth < maxd
-          /\ \E m \in (IF Len(p.certs) > 100 THEN {x \in Muts : x.k = "quorum"} ELSE Muts) : p' = Apply(p, m) /\ p' # p
+          /\ \E m \in (IF Len(p.certs) > 100 THEN {x \in Muts : x.k = "quorum" /\ x.a \in BigQuorums} ELSE Muts) : p' = Apply(p, m) /\ p' # p
           /\ depth' = depth + 1
           /\ UNCHANGED maxd
 Next == Mutate
